@@ -81,6 +81,36 @@ def cellDataContent {α} (cs : List (Nat × List Nat)) (vals : List α) : List (
   (uniqueSorted (cs.map (·.1))).map (fun t =>
     (t, ((cs.zip vals).filter (·.1.1 = t)).map (·.2)))
 
+/-! ### VTP cell layout -/
+
+/-- running end offsets of the rows of one section -/
+def rowOffsetsFrom : List (List Nat) → Nat → List Nat
+  | [], _ => []
+  | r :: rs, acc => (acc + r.length) :: rowOffsetsFrom rs (acc + r.length)
+
+/-- logical sections (cell type id, cells in file order; Verts, Lines, Polys, Strips) → per section
+    the count attribute and the two flat arrays of the file -/
+def vtpArrays (secs : List (Nat × List (List Nat))) : List (Nat × Nat × List Nat × List Nat) :=
+  secs.map (fun s => (s.1, s.2.length, s.2.flatten, rowOffsetsFrom s.2 0))
+
+/-- what the file means: per NON-EMPTY section its cells in file order and their consecutive
+    positions in the cell-data arrays -/
+def vtpContentFrom : List (Nat × List (List Nat)) → Nat → List (Nat × List (List Nat) × List Nat)
+  | [], _ => []
+  | s :: ss, start =>
+    if s.2.length = 0 then vtpContentFrom ss start
+    else (s.1, s.2, (List.range s.2.length).map (start + ·)) :: vtpContentFrom ss (start + s.2.length)
+
+def vtpContent (secs : List (Nat × List (List Nat))) : List (Nat × List (List Nat) × List Nat) :=
+  vtpContentFrom secs 0
+
+/-- cell data per non-empty section: the next `#cells` values, in file order -/
+def vtpCellDataContent {α} : List (Nat × List (List Nat)) → List α → List (Nat × List α)
+  | [], _ => []
+  | s :: ss, vals =>
+    if s.2.length = 0 then vtpCellDataContent ss vals
+    else (s.1, vals.take s.2.length) :: vtpCellDataContent ss (vals.drop s.2.length)
+
 /-! ### raw-appended files: what the fallback parser has to cut apart
 
   A file with `<AppendedData encoding="raw">` is not well-formed XML.  Its bytes are
